@@ -18,9 +18,14 @@ TraceDec == /\ IsEvent("Dec")
                         /\ e.res = Decode(e.v, e.cut)
                         /\ e.res2 = e.res)
 
+\* an object key has a 16-bit length and no long form: a key of 65536 bytes or more has no AMF0 encoding, and the only
+\* exact answer of an encoder is to refuse the value
+KeysFit(v) == v.k # "obj" \/ \A i \in 1..Len(v.ps) : v.ps[i].key.n < 65536
 TraceEnc == /\ IsEvent("Enc")
             /\ LET e == Trace[l]
-               IN Check(/\ e.tokOk
+               IN IF ~KeysFit(e.v) THEN Check(e.refused) ELSE
+                  Check(/\ ~e.refused
+                        /\ e.tokOk
                         /\ e.toks = Enc(e.v)
                         /\ e.total = Bytes(e.toks)
                         /\ e.res = (IF e.v.k = "null" THEN [ok |-> TRUE, used |-> 1, val |-> Skip]
